@@ -6,7 +6,7 @@
 From Coq Require Import String.
 From Coq Require Import List NArith Bool.
 From HS Require Import Base.Prelude Model.Value Model.Escape Model.Version Model.Json Model.ZincDump Model.ZincParse.
-From HS Require Import Proofs.EscapeP Proofs.ZincParseP Proofs.ZincDumpP Proofs.ZincNumP Proofs.ZincDateP Proofs.ZincListP Proofs.ZincGridP Proofs.ZincDictP.
+From HS Require Import Proofs.EscapeP Proofs.ZincParseP Proofs.ZincDumpP Proofs.ZincNumP Proofs.ZincDateP Proofs.ZincListP Proofs.ZincGridP Proofs.ZincDictP Proofs.ZincMetaP Proofs.ZincLeavesP Proofs.ZincDocP Proofs.ZincNestP Proofs.ZincCoordP Proofs.ZincXStrP.
 Import ListNotations.
 Open Scope N_scope.
 
@@ -154,6 +154,148 @@ Proof.
   right. right. exists []. split; [reflexivity|]. split; [reflexivity|]. split; constructor.
 Qed.
 
+(* WHOLE GRIDS WITH GRID AND COLUMN METADATA: metadata tags are bare names (markers) or name:value with a zval value;
+   distinct tag names (none called ver), distinct column names, per column distinct tag names; cells as above.  The text
+   written is read back - by the grid rule and by parse_grid - as exactly the grid. *)
+Theorem C01_grid_with_metadata : forall n mps cols rows rts,
+  Forall (mval n) mps -> NoDup (mkeys mps) -> ~ In VERK (mkeys mps) ->
+  cols <> [] -> Forall (mcol n) cols -> NoDup (map fst cols) ->
+  Forall2 (grid_gcells_ok n (map fst cols)) rows rts ->
+  (forall f, zdump_grid (S (S (n + f))) V30 (map pkv mps) (map (fun c => (fst c, map pkv (snd c))) cols)
+                        (map (fun cells => combine (map fst cols) cells) rows) = Ok (meta_text mps cols rts)) /\
+  (forall k, p_grid (S (S (n + k))) true (meta_text mps cols rts) = Some (Ok (meta_grid mps cols rows), [])) /\
+  ((n <= length (meta_text mps cols rts))%nat -> zparse_grid (meta_text mps cols rts) = Ok (meta_grid mps cols rows)).
+Proof. exact grid_meta_roundtrip. Qed.
+Example C01_metadata_nonvacuous :
+  let mps := [(s_ "site", VMarker, []); (s_ "dis", VStr (s_ "a b"), s_ """a b""")] in
+  let cols := [(s_ "a", [(s_ "unit", VStr (s_ "kW"), s_ """kW"""); (s_ "his", VMarker, [])]); (s_ "b", [])] in
+  let rows := [[VBool true; VNull]] in
+  let rts := [[s_ "T"; s_ "N"]] in
+  meta_text mps cols rts = s_ "ver:""3.0"" site dis:""a b""
+a unit:""kW"" his,b
+T,N
+" /\ zparse_grid (meta_text mps cols rts) = Ok (meta_grid mps cols rows).
+Proof.
+  intros mps cols rows rts. split; [reflexivity|].
+  assert (Sab : zval 0 (VStr (s_ "a b")) (s_ """a b""")) by (apply (leafd_str (s_ "a b") (s_ "a b")); reflexivity).
+  assert (Skw : zval 0 (VStr (s_ "kW")) (s_ """kW""")) by (apply (leafd_str (s_ "kW") (s_ "kW")); reflexivity).
+  apply (C01_grid_with_metadata 0 mps cols rows rts).
+  - constructor; [split; [repeat constructor|left; reflexivity]|]. constructor; [split; [repeat constructor|right; exact Sab]|constructor].
+  - repeat constructor; vm_compute; intuition discriminate.
+  - vm_compute. intuition discriminate.
+  - discriminate.
+  - constructor; [|constructor; [|constructor]].
+    + split; [repeat constructor|]. split; [|repeat constructor; vm_compute; intuition discriminate].
+      constructor; [split; [repeat constructor|right; exact Skw]|]. constructor; [split; [repeat constructor|left; reflexivity]|constructor].
+    + split; [repeat constructor|]. split; constructor.
+  - repeat constructor; vm_compute; intuition discriminate.
+  - constructor; [|constructor]. split; [reflexivity|].
+    constructor; [apply gcell_zval; exact (leafd_bool true)|]. constructor; [apply gcell_zval; exact leafd_null|constructor].
+  - apply Nat.le_0_l.
+Qed.
+
+(* more leaves: references with a display name (any name over the reference alphabet, any display string), Bin,
+   coordinates (degree texts: optional minus, digits, optional fraction) and extended strings (type name: an upper-case
+   letter other than T F N M R I B C, which start other literals, then letters, digits, underscores; any payload) *)
+Theorem C01_more_leaves :
+  (forall name s e, Forall (fun c => is_zref_char c = true) name -> escape_str s = Ok e ->
+                    leafd (VRef name (Some s)) (64 :: name ++ 32 :: DQ :: e ++ [DQ])) /\
+  (forall m, bin_ok m -> leafd (VBin m) (BINP ++ m ++ [41])) /\
+  (forall s1 i1 f1 s2 i2 f2, deg_ok i1 f1 -> deg_ok i2 f2 ->
+                    leafd (VCoord (deg s1 i1 f1) (deg s2 i2 f2)) (coord_text (deg s1 i1 f1) (deg s2 i2 f2))) /\
+  (forall en s e, xname_ok en -> escape_str s = Ok e -> leafd (VXStr en s) (en ++ 40 :: DQ :: e ++ [DQ; 41])).
+Proof. split; [exact leafd_ref_dis|]. split; [exact leafd_bin|]. split; [exact leafd_coord|exact leafd_xstr]. Qed.
+(* DOCUMENTS: a text of non-empty lines, each ended by one line feed, is one chunk for parser.parse (trailing-newline
+   normalisation, splitting at blank lines, dropping blank chunks): what parse_grid makes of it is the document's one grid *)
+Theorem C01_document : forall s g, s <> [] -> (last s 0 =? 10) = false -> no_adj (s ++ [10]) = true ->
+  (match s with c :: _ => negb ((c =? 32) || ((9 <=? c) && (c <=? 13)) || ((28 <=? c) && (c <=? 31)) || (c =? 133) || (c =? 160)
+                    || (c =? 5760) || ((8192 <=? c) && (c <=? 8202)) || (c =? 8232) || (c =? 8233) || (c =? 8239)
+                    || (c =? 8287) || (c =? 12288)) = true | [] => False end) ->
+  zparse_grid (s ++ [10]) = Ok g -> zparse_doc (s ++ [10]) = Ok [g].
+Proof. exact doc_single. Qed.
+
+Example C01_document_nonvacuous :
+  let mps := [(s_ "site", VMarker, []); (s_ "dis", VStr (s_ "a b"), s_ """a b""")] in
+  let cols := [(s_ "a", [(s_ "unit", VStr (s_ "kW"), s_ """kW"""); (s_ "his", VMarker, [])]); (s_ "b", [])] in
+  zparse_doc (s_ "ver:""3.0"" site dis:""a b""
+a unit:""kW"" his,b
+T,N
+") = Ok [meta_grid mps cols [[VBool true; VNull]]].
+Proof.
+  intros mps cols. destruct C01_metadata_nonvacuous as [Et Hg]. cbv zeta in Et, Hg. fold mps cols in Et, Hg. rewrite Et in Hg.
+  apply (C01_document (s_ "ver:""3.0"" site dis:""a b""
+a unit:""kW"" his,b
+T,N")); first [vm_compute; reflexivity | discriminate | exact Hg].
+Qed.
+
+(* THE GENERAL THEOREM.  zv n v t: v is a leaf (string, URI, number / quantity, date, time, null, marker, Remove, NA,
+   boolean, reference with display name, Bin, coordinate, extended string), a list, a dict, or a NESTED GRID with metadata - of zv (n-1) values, to
+   any depth n.  Every such value is written as t and read back from t (C01_value_relation); and every 3.0 grid with grid
+   and column metadata over zv values, whose cells are zv values or plain references, is written as text that the grid
+   rule and parse_grid read back as exactly that grid (C01_full_grid). *)
+Theorem C01_value_relation : forall n v t, zv n v t ->
+  (forall f, zdump (S (2 * n + f)) false v = Ok t) /\
+  (forall k rest, delim rest -> p_scalar (S (2 * n + k)) true (t ++ rest) = Some (Ok v, rest)).
+Proof. intros n v t H. destruct (zv_sem n v t H) as [D R]. split; [exact D|]. intros k rest Hd. exact (R k rest Hd). Qed.
+Theorem C01_full_grid : forall n mps cols rows rts, full_grid_ok n mps cols rows rts ->
+  (forall f, zdump_grid (S (S (2 * n + f))) V30 (map pkv mps) (map (fun c => (fst c, map pkv (snd c))) cols)
+                        (map (fun cells => combine (map fst cols) cells) rows) = Ok (meta_text mps cols rts)) /\
+  (forall k, p_grid (S (S (2 * n + k))) true (meta_text mps cols rts) = Some (Ok (meta_grid mps cols rows), [])) /\
+  ((2 * n <= length (meta_text mps cols rts))%nat -> zparse_grid (meta_text mps cols rts) = Ok (meta_grid mps cols rows)).
+Proof. exact full_grid_roundtrip. Qed.
+Example C01_nested_grid_nonvacuous :
+  let inner := meta_grid [] [(s_ "x", [])] [[nval false (s_ "1") None None None]] in
+  let cols := [(s_ "a", []); (s_ "b", [])] in
+  let rows := [[inner; VRef (s_ "r1") None]] in
+  let rts := [[s_ "<<ver:""3.0""
+x
+1
+>>"; s_ "@r1"]] in
+  full_grid_ok 1 [] cols rows rts /\
+  zparse_doc (s_ "ver:""3.0""
+a,b
+<<ver:""3.0""
+x
+1
+>>,@r1
+") = Ok [meta_grid [] cols rows].
+Proof.
+  intros inner cols rows rts.
+  assert (D1 : ntok_ok false (s_ "1") None None None).
+  { unfold ntok_ok, digs, fp_ok, ex_ok, u_ok. repeat split; try discriminate; try (repeat constructor; fail). }
+  assert (ZI : zv 1 inner (s_ "<<ver:""3.0""
+x
+1
+>>")).
+  { right. right. right. exists [], [(s_ "x", [])], [[nval false (s_ "1") None None None]], [[s_ "1"]].
+    split; [reflexivity|]. split; [reflexivity|]. split; [constructor|]. split; [constructor|]. split; [intros []|].
+    split; [discriminate|]. split; [constructor; [split; [repeat constructor|split; constructor]|constructor]|].
+    split; [repeat constructor; intros []|]. constructor; [|constructor]. split; [reflexivity|].
+    constructor; [exact (leafd_number false (s_ "1") None None None D1)|constructor]. }
+  assert (OK : full_grid_ok 1 [] cols rows rts).
+  { split; [constructor|]. split; [constructor|]. split; [intros []|]. split; [discriminate|].
+    split; [constructor; [split; [repeat constructor|split; constructor]|constructor; [split; [repeat constructor|split; constructor]|constructor]]|].
+    split; [repeat constructor; vm_compute; intuition discriminate|].
+    constructor; [|constructor]. split; [reflexivity|].
+    constructor; [left; exact ZI|]. constructor; [right; apply leafc_ref; repeat constructor|constructor]. }
+  split; [exact OK|].
+  destruct (C01_full_grid 1 [] cols rows rts OK) as [_ [_ T]].
+  assert (Et : meta_text [] cols rts = s_ "ver:""3.0""
+a,b
+<<ver:""3.0""
+x
+1
+>>,@r1
+") by reflexivity.
+  rewrite Et in T.
+  apply (C01_document (s_ "ver:""3.0""
+a,b
+<<ver:""3.0""
+x
+1
+>>,@r1")); first [vm_compute; reflexivity | discriminate | (apply T; vm_compute; repeat constructor)].
+Qed.
+
 (* non-vacuity: a concrete grid meets the hypotheses; its text, and what the top-level reader makes of it *)
 Example C01_grid_nonvacuous :
   let names := [s_ "a"; s_ "b"] in
@@ -207,6 +349,11 @@ Example C01_grid_example :
   end.
 Proof. vm_compute. reflexivity. Qed.
 
+Print Assumptions C01_full_grid.
+Print Assumptions C01_value_relation.
+Print Assumptions C01_grid_with_metadata.
+Print Assumptions C01_document.
+Print Assumptions C01_more_leaves.
 Print Assumptions C01_grid_values.
 Print Assumptions C01_values.
 Print Assumptions C01_grid_roundtrip.
